@@ -376,8 +376,9 @@ Persist(e, uid, inprogress, cpNums, holderNums, preHashes) ==
         pre |-> [h \in DOMAIN @.pre \cup preHashes |-> IF h \in DOMAIN @.pre THEN @.pre[h] ELSE uid]]]
   /\ Unch(<<par, cnt, hs, fees, feeBase, base, link, redo, lastCS, order, pts, ownExp>>)
 
+\* (the completion of a full re-persist that carried no update -- a chain-sync write -- names an id that
+\* is not in flight as an *update*: it changes nothing here)
 Complete(e, uid) ==
-  /\ uid \in mon[e].infl
   /\ mon' = [mon EXCEPT ![e].infl = @ \ {uid}]
   /\ Unch(<<par, cnt, hs, fees, feeBase, base, link, redo, lastCS, order, pts, ownExp>>)
 
